@@ -26,7 +26,7 @@ COMPONENTS = {'real': ['yldprolog.engine Variable/Functor get_value and to_pytho
               'stub': ['consumer holding the open unifications and saved values'],
               'oracle': ['substitution-stack model (ypsim.terms) rendered through the documented to_python mapping']}
 REQUIRED_PROBES = ('term_built_and_kept', 'fault_recursion_inside_get_value', 'fault_recursion_inside_to_python', 'save_ground_compound', 'save_outer_older_than_inner', 'read_after_pop', 'program_collect_idiom', 'program_findall', 'program_assert',
-                   'pop_close', 'pop_drop', 'pop_resume', 'pop_throw', 'finished_generator_closed_or_dropped_later', 'saved_value_used_as_goal', 'chain_of_variable_linked_cells', 'stored_through_assert_fact', 'side_advanced_or_ended_while_younger_generators_suspended', 'program_bounded_projection_fault')
+                   'pop_close', 'pop_drop', 'pop_resume', 'pop_throw', 'clear_under_open_unifications', 'finished_generator_closed_or_dropped_later', 'saved_value_used_as_goal', 'chain_of_variable_linked_cells', 'stored_through_assert_fact', 'side_advanced_or_ended_while_younger_generators_suspended', 'program_bounded_projection_fault')
 
 
 def ground_term(rng, depth):
@@ -110,6 +110,8 @@ def gen(seed, tier):
                 ops.append(['MKTERM', TM.J(TM.build_big(rng.choice(('list', 'open', 'wide', 'nest')), TM.big_leaves(rng, nv, rng.choice((20, 26, 41, 66)), p_var=0.1)))])
             else:
                 ops.append(['MKTERM', TM.J(TM.rnd_term(rng, nv, 2, p_leaf=0.2, p_var=0.7, lists=rng.random() < 0.4))])
+        elif k < 0.15:
+            ops.append(['CLEAR'])
         elif k < 0.17:
             # a unification that already ended by exhaustion is closed / dropped only now (a no-op for a generator)
             ops.append(['REAP', rng.randrange(4), rng.choice(('close', 'drop'))])
@@ -166,6 +168,8 @@ def show_op(op):
         return 'SAVE %s' % TM.show(TM.T(op[1]))
     if op[0] == 'MKTERM':
         return 'MKTERM %s (built now, read at every later event)' % TM.show(TM.T(op[1]))
+    if op[0] == 'CLEAR':
+        return 'CLEAR yp.clear() (atoms, facts, rules; not the bindings of open unifications)'
     if op[0] == 'CHAIN':
         return 'CHAIN _V%d = list of %d cells, each tail a variable of its own bound by the next unification (one frame)' % (op[1], op[2])
     if op[0] == 'ASSERTV':
@@ -257,7 +261,7 @@ def execute(plan):
         return side_engines[other]
 
     def check_now(tag):
-        for n_, (t_, (a_, b_), row) in enumerate(sides):
+        for n_, (t_, (a_, b_), row, _other) in enumerate(sides):
             if t_.done:
                 wa, wb = None, None
             else:
@@ -375,6 +379,17 @@ def execute(plan):
                     break
                 if saved:
                     log.count('read_after_pop')
+            elif kind == 'CLEAR':
+                yp.clear()
+                del asserted[:]
+                for i_ in range(plan.get('prefill', 0)):
+                    yp.assert_fact(yp.atom('st'), [yp.functor('pre', [i_])])
+                side_engines.pop(False, None)
+                for x_ in sides:
+                    if not x_[0].done and x_[3] is False:
+                        x_[0].close()
+                log.count('clear_under_open_unifications' if stack else 'clear')
+                log.ev('clear')
             elif kind == 'CHAIN':
                 vi = op[1] % len(pool)
                 if len(stack) >= 90 or TM.walk(('v', vi), s) != ('v', vi):
@@ -453,7 +468,7 @@ def execute(plan):
                 a_, b_ = e.variable(), e.variable()
                 t_ = GenTask(e.query('sf', [a_, b_]))
                 t_.step()
-                sides.append([t_, (a_, b_), 0])
+                sides.append([t_, (a_, b_), 0, bool(op[1])])
                 log.count('side_started')
                 log.ev('side', bool(op[1]))
             elif kind == 'SIDESTEP':
